@@ -48,6 +48,8 @@ pub struct Rep {
 }
 
 pub struct Exec {
+    /// ranges computed by `rplan recv send`, fetched later by `rapply`
+    pub plans: HashMap<(u64, u64), OwnedDiff>,
     /// join of everything written through `rwrite ... join` since the last `rnew 0`
     pub written: BTreeMap<Vec<u8>, Vec<u8>>,
     /// real snapshots taken by `snap`, with the ranges they described when taken
@@ -167,6 +169,7 @@ impl<'a> TraceCheck<'a> {
 impl Exec {
     pub fn new(oracle_every: usize) -> Self {
         Exec {
+            plans: HashMap::new(),
             written: BTreeMap::new(),
             snaps: HashMap::new(),
             preimages: HashMap::new(),
@@ -956,6 +959,7 @@ impl Exec {
                 if r == 0 {
                     self.reps.clear();
                     self.written.clear();
+                    self.plans.clear();
                 }
                 self.reps.insert(r, Rep { tree, store: BTreeMap::new() });
                 Ok("ok".into())
@@ -1039,6 +1043,67 @@ impl Exec {
                     }
                     None => Ok("panic".into()),
                 }
+            }
+            ["rplan", i, j] => {
+                // first half of a pull: hash both, diff, keep the ranges for later
+                self.count("rplan");
+                let (i, j) = (num(i)?, num(j)?);
+                if i == j || !self.reps.contains_key(&i) || !self.reps.contains_key(&j) {
+                    return Err(bad());
+                }
+                let out = catch_unwind(AssertUnwindSafe(|| {
+                    self.reps.get_mut(&i).unwrap().tree.hash();
+                    self.reps.get_mut(&j).unwrap().tree.hash();
+                    let mut c16 = vec![];
+                    self.reps[&i].tree.diff_with(self.reps[&j].tree.as_ref(), &mut c16)
+                }));
+                match out {
+                    Ok(DiffOut::Ok(d)) => {
+                        let s = show_drs(&d);
+                        self.plans.insert((i, j), d);
+                        Ok(s)
+                    }
+                    _ => {
+                        self.fail("C15", "panic while planning a pull".into());
+                        Ok("panic".into())
+                    }
+                }
+            }
+            ["rapply", i, j, m] => {
+                // second half, possibly much later: fetch the planned ranges from the sender's CURRENT store
+                self.count("rapply");
+                let (i, j) = (num(i)?, num(j)?);
+                let join = match *m {
+                    "join" => true,
+                    "peer" => false,
+                    _ => return Err(bad()),
+                };
+                let ranges = self.plans.remove(&(i, j)).ok_or_else(bad)?;
+                if !self.reps.contains_key(&i) || !self.reps.contains_key(&j) {
+                    return Err(bad());
+                }
+                let mut fetched: Vec<(Vec<u8>, Vec<u8>, Vec<u8>)> = vec![];
+                for (k, (kd, v)) in self.reps[&j].store.iter() {
+                    if ranges.iter().any(|r| r.0 <= *k && *k <= r.1) {
+                        fetched.push((k.clone(), kd.clone(), v.clone()));
+                    }
+                }
+                let rep = self.reps.get_mut(&i).unwrap();
+                for (k, kd, v) in &fetched {
+                    let merged = match rep.store.get(k) {
+                        Some((_, old)) if join && old >= v => old.clone(),
+                        _ => v.clone(),
+                    };
+                    let res = catch_unwind(AssertUnwindSafe(|| rep.tree.ups(k, kd, &merged, None)));
+                    if !matches!(res, Ok(Ok(()))) {
+                        self.fail("C15", "upsert panicked while absorbing a stale fetch".into());
+                        return Ok("panic".into());
+                    }
+                    rep.store.insert(k.clone(), (kd.clone(), merged));
+                }
+                let f: Vec<(Vec<u8>, Vec<u8>)> = fetched.iter().map(|x| (x.0.clone(), x.2.clone())).collect();
+                let st: Vec<(Vec<u8>, Vec<u8>)> = self.reps[&i].store.iter().map(|(k, (_, v))| (k.clone(), v.clone())).collect();
+                Ok(format!("{} | {}", show_kvs(&f), show_kvs(&st)))
             }
             ["rsettle", m] => {
                 // the fair quiescent phase itself (mirrors Driver.lean `settle`), then the C05/C06 oracle
